@@ -14,7 +14,7 @@ from ..runner import Result, CheckError
 from .. import rules, flow
 from ..rules import param_by_name, one_call, term_of_operand, term_of_local, term_str, callee_name
 from ..flow import strip_calls_bb, term_contains
-from .common import ctx, short_site
+from .common import ctx, short_site, is_session_replacement, SESSION_REPLACERS
 from . import c07
 
 PID = 'C05'
@@ -189,6 +189,9 @@ def run(tier):
     seen = set()
     for (b, bb, si, s, kind) in ws:
         if b.exp and 'derive' in (b.exp or ''):
+            continue
+        if is_session_replacement(b, s, kind):
+            res.require(True, 'C05:who-writes:fcnt_down:%s' % b.path.split('::')[-1], '', None, 'WHO-WRITES(fcnt_down)', instance='session replaced as a whole: %s (%s)' % (b.path, SESSION_REPLACERS[b.path]))
             continue
         seen.add(b.path)
         res.require(allowed.get(b.path) == kind, 'C05:who-writes:fcnt_down:%s' % b.path.split('::')[-1],
